@@ -169,7 +169,7 @@ impl Prop for C09 {
             (Just(ty), mat_spec(ty, tier, md), Just(flags)).prop_map(|(ty, spec, flags)| Case { ty, spec, flags })
         }).boxed()
     }
-    fn cases(tier: Tier) -> u32 { tier.pick(200_000, 3_000_000) }
+    fn cases(tier: Tier) -> u32 { tier.pick(200_000, 600_000) }
     fn shards(_: Tier) -> usize { 16 }
     fn fuzz_in_domain(c: &Case) -> bool { let (bits, deg) = c.spec.size(); bits <= 700 && deg <= 4 }
     fn run(case: &Case, ctx: &Ctx) -> Outcome { to_outcome(run_case(case, ctx.tier)) }
